@@ -572,7 +572,7 @@ class NetworkGraph(AbstractBaseIR):
                 # Build the ODE chain (n_order stages, one shared rate constant)
                 chain_shape = (G,) if G > 1 else ()
                 if n_order > 0:
-                    rate_name = f"k_d{chain_id}{buffer_id}"
+                    rate_name = f"{var}_k_d{chain_id}{buffer_id}"
                     var_dict[rate_name] = {'vtype': 'constant', 'dtype': 'float', 'value': rate_val}
                     prev = chain_in
                     for k in range(1, n_order + 1):
@@ -632,7 +632,7 @@ class NetworkGraph(AbstractBaseIR):
                         f'{var}_delays{buffer_id}': {'vtype': 'constant',
                                                      'dtype': 'int',
                                                      'value': delays},
-                        f'source_idx{buffer_id}': {'vtype': 'constant',
+                        f'{var}_source_idx{buffer_id}': {'vtype': 'constant',
                                                    'dtype': 'int',
                                                    'value': source_idx}}
 
@@ -648,7 +648,7 @@ class NetworkGraph(AbstractBaseIR):
             else:
                 buffer_eqs = [f"index_axis({var}_buffer{buffer_id}) = roll({var}_buffer{buffer_id}, 1, 1)",
                               f"index_axis({var}_buffer{buffer_id}, 0, 1) = {var}",
-                              f"{var}_buffered{buffer_id} = index_2d({var}_buffer{buffer_id}, source_idx{buffer_id}, "
+                              f"{var}_buffered{buffer_id} = index_2d({var}_buffer{buffer_id}, {var}_source_idx{buffer_id}, "
                               f"{var}_delays{buffer_id})"]
 
         # Turn ODE system into DDE system
